@@ -623,3 +623,79 @@ def k_repr(p):
 
 
 KINDS.update({"repr": k_repr})
+
+
+def ref_scores(rows, k, has_insertion, has_deletion):
+    """independent reading of the intersection score: leaf SETS at depth k-1 below each successor."""
+    N = len(rows)
+    succs = [[x for x in r if x >= 0] for r in rows]
+
+    def leaves(v, d):
+        cur = [v]
+        for _ in range(d):
+            cur = [x for u in cur for x in succs[u]]
+        return set(cur)
+    sc = [[0] * 4 for _ in range(N)]
+    for c in range(N):
+        S = succs[c]
+        if not S:
+            continue
+        B = [leaves(s, k - 1) for s in S]
+        for i in range(len(S)):
+            for j in range(i + 1, len(S)):
+                u = len(B[i] | B[j])
+                sc[c][S[i] % 4] += u
+                sc[c][S[j] % 4] += u
+        if has_insertion:
+            for i, s in enumerate(S):
+                for t in succs[s]:
+                    sc[c][s % 4] += len(B[i] | leaves(t, k - 1))
+        if has_deletion:
+            D = leaves(c, k - 1)
+            for i, s in enumerate(S):
+                sc[c][s % 4] += len(B[i] | D)
+    return sc
+
+
+def k_nasty(p):
+    """C19: a sequence of remove_nasty_arc calls on a concrete graph."""
+    import dsw
+    rows = [list(r) for r in p["acc"]]
+    N = len(rows)
+    k = int(round(np.log(N) / np.log(4)))
+    ins, dele = bool(p.get("has_insertion", True)), bool(p.get("has_deletion", True))
+    acc = np.array(rows, dtype=int)
+    lm = {v: [x for x in rows[v] if x >= 0] for v in range(N) if any(x >= 0 for x in rows[v])}
+    for step in range(int(p.get("steps", 1))):
+        before = acc.copy()
+        sc = ref_scores(before.tolist(), k, ins, dele)
+        got_sc, ex = call(dsw.calculate_intersection_score, {a: list(b) for a, b in lm.items()}, k, ins, dele)
+        if ex is None:
+            if got_sc.shape != (N, 4):
+                return True, "score table of shape %s" % (got_sc.shape,)
+            if got_sc.tolist() != sc:
+                return True, "step %d: intersection scores differ from the definition at %s" % (step, [(v, got_sc[v].tolist(), sc[v]) for v in range(N) if got_sc[v].tolist() != sc[v]][:3])
+        r, ex = call(dsw.remove_nasty_arc, acc, lm, 0, ins, dele)
+        if ex is not None:
+            return False, "step %d: call raised %s (sequence ends)" % (step, ex)
+        acc2, lm2, arc, scores = r
+        changed = [(v, j) for v in range(N) for j in range(4) if before[v][j] != acc2[v][j]]
+        if len(changed) != 1:
+            return True, "step %d: %d accessor entries changed: %s" % (step, len(changed), changed[:4])
+        v, j = changed[0]
+        if before[v][j] < 0 or acc2[v][j] != -1:
+            return True, "step %d: changed entry (%d,%d) %d -> %d is not the removal of an existing arc" % (step, v, j, before[v][j], acc2[v][j])
+        mx = max(max(r_) for r_ in sc)
+        if sc[v][j] != mx:
+            return True, "step %d: removed arc %d -> %d has score %d, the maximum is %d" % (step, v, before[v][j], sc[v][j], mx)
+        if (int(arc[0]), int(arc[1])) != (v, int(before[v][j])):
+            return True, "step %d: reported arc %s, removed arc (%d, %d)" % (step, arc, v, before[v][j])
+        exp_lm = {u: [x for x in acc2[u].tolist() if x >= 0] for u in range(N) if (acc2[u] >= 0).any()}
+        got_lm = {int(a): [int(x) for x in b] for a, b in lm2.items()}
+        if got_lm != exp_lm:
+            return True, "step %d: latter map %s and accessor (map %s) describe different graphs" % (step, got_lm, exp_lm)
+        acc, lm = acc2, lm2
+    return False, "ok"
+
+
+KINDS.update({"nasty": k_nasty})
